@@ -271,6 +271,9 @@ def observe(src):
         m = re.match(r"(.+)_(\d|n)$", n)
         if m:
             def nat(*args):
+                # no answers, like the unknown predicate it replaces: a program that happens to call it behaves
+                # as in an engine without it
+                return
                 yield False
             try:
                 yp.register_function(m.group(1), nat, arity=-1 if m.group(2) == "n" else int(m.group(2)))
